@@ -64,6 +64,15 @@ def generate(ck):
     n = 110 if ck.tier == "quick" else 20000
     descs = []
     for i in range(n):
+        if i % 40 == 7:
+            # the same correlation called from several threads at once, each with its own gas and
+            # temperature (a thread pool building one table per well)
+            gases = []
+            for _ in range(4):
+                Tpc, ppc = wl.pseudocritical(rng)
+                gases.append({"Tr": wl.f(rng.uniform(1.05, 3.0)), "Tpc": Tpc, "ppc": ppc, "pr": [wl.f(v) for v in np.exp(rng.uniform(np.log(1e-2), np.log(30), 30))]})
+            descs.append({"kind": "threads", "gases": gases})
+            continue
         if i % 5 == 4:
             comp = wl.gas_composition(rng)
             descs.append({"kind": "composition", "comp": comp, "n_rows": 25 if ck.tier == "quick" else 60})
@@ -123,6 +132,49 @@ def run_case(ck, desc):
     from bluebonnet.fluids.gas import z_factor_DAK, z_factor_hallyarbrough
 
     EVENTS.clear()
+    if desc["kind"] == "threads":
+        import sys
+        import threading
+
+        jobs = [[(g["Tr"] * (g["Tpc"] + 459.67) - 459.67, pr * g["ppc"], g["Tpc"], g["ppc"]) for pr in g["pr"]] for g in desc["gases"]]
+        out = [[None] * len(j) for j in jobs]
+        errs = []
+
+        def work(k):
+            try:
+                for i_, a in enumerate(jobs[k]):
+                    out[k][i_] = float(z_factor_DAK(*a))
+            except Exception as e:  # noqa: BLE001
+                errs.append(repr(e))
+
+        old_iv = sys.getswitchinterval()
+        sys.setswitchinterval(1e-5)  # hand the interpreter over often: more interleavings per second
+        try:
+            th = [threading.Thread(target=work, args=(k,)) for k in range(len(jobs))]
+            for t_ in th:
+                t_.start()
+            for t_ in th:
+                t_.join(120)
+        finally:
+            sys.setswitchinterval(old_iv)
+        if errs or any(t_.is_alive() for t_ in th):
+            ck.violation("threads-every-call-returns", {"errors": errs[:3], "alive": sum(t_.is_alive() for t_ in th)}, desc)
+            EVENTS.clear()
+            return True, None
+        n = judge_events(ck, desc)  # every concurrent evaluation against the published equation
+        # ... and against the same call made alone afterwards
+        worst = 0.0
+        for k, j in enumerate(jobs):
+            for i_, a in enumerate(j):
+                alone = float(z_factor_DAK(*a))
+                worst = max(worst, abs(out[k][i_] - alone))
+                if out[k][i_] != alone:
+                    ck.violation("threads-same-value-as-the-call-made-alone", {"args": list(a), "concurrent": out[k][i_], "alone": alone}, desc)
+                    break
+        EVENTS.clear()
+        ck.count("concurrent_evaluations", sum(len(j) for j in jobs))
+        ck.count("thread_groups")
+        return n >= 10, {"threads": len(jobs), "worst_abs_diff": worst}
     if desc["kind"] == "composition":
         comp = dict(desc["comp"])
         dry = comp.pop("dryness")
